@@ -23,7 +23,7 @@ RULE = ("Tables as in C06 (time-indexed for duration windows: non-decreasing tim
 ASSUMPTIONS = ["pandas backend", "dtype / index order not compared",
                "var/std of a single row: NaN == NaN"]
 
-AGGS = ["sum", "count", "mean", "var", "std", "size", "value_counts"]
+AGGS = ["sum", "count", "mean", "var", "std", "size", "value_counts", "full", "apply_median"]
 GAGGS = ["sum", "count", "size", "mean", "var", "std"]
 
 
@@ -43,6 +43,13 @@ def case_strategy(draw, tier="quick"):
         expr["base"] = "x"
     if expr["agg"] in ("var", "std"):
         expr["ddof"] = draw(st.sampled_from([1, 1, 0]))
+    if expr["agg"] == "apply_median":
+        expr["base"] = draw(st.sampled_from(["x", "y"]))
+    # every batch may carry its own RangeIndex 0..k-1 (labels repeat between batches)
+    expr["per_batch_index"] = (not timed) and draw(st.booleans())
+    # derived frame defined before the grouper expression (the frame batch reaches the join of
+    # frame and grouper first)
+    expr["late_grouper"] = bool(group == "series" and draw(st.booleans()))
     return {"table": t, "cuts": cuts, "expr": expr}
 
 
@@ -60,9 +67,17 @@ def window_slice(cat, w):
 def stream_expr(sdf, expr):
     w = sdf.window(**expr["window"])
     if expr["group"]:
-        gb = w.groupby("g") if expr["group"] == "col" else w.groupby(w.g)
         sel = {"xy": ["x", "y"], "x": "x", "y": "y"}[expr["base"]]
+        if expr.get("late_grouper"):
+            wide = sdf[["x", "y"]] * 1
+            key = sdf.g
+            return getattr(wide.window(**expr["window"]).groupby(key)[sel], expr["agg"])(**ddof(expr))
+        gb = w.groupby("g") if expr["group"] == "col" else w.groupby(w.g)
         return getattr(gb[sel], expr["agg"])(**ddof(expr))
+    if expr["agg"] == "full":
+        return (w[["x", "y"]] if expr["base"] == "xy" else w[expr["base"]]).full()
+    if expr["agg"] == "apply_median":
+        return w[expr["base"]].apply(_median)
     sel = w[["x", "y"]] if expr["base"] == "xy" else w[expr["base"]]
     a = expr["agg"]
     if a == "size":
@@ -70,7 +85,15 @@ def stream_expr(sdf, expr):
     return getattr(sel, a)(**ddof(expr))
 
 
+def _median(frame):
+    return frame.median()
+
+
 def pandas_expr(df, expr):
+    if expr["agg"] == "full":
+        return df[["x", "y"]] if expr["base"] == "xy" else df[expr["base"]]
+    if expr["agg"] == "apply_median":
+        return df[expr["base"]].median()
     if expr["group"]:
         gb = df.groupby("g") if expr["group"] == "col" else df.groupby(df.g)
         sel = {"xy": ["x", "y"], "x": "x", "y": "y"}[expr["base"]]
@@ -85,6 +108,8 @@ def pandas_expr(df, expr):
 def execute(case):
     t, cuts, expr = case["table"], case["cuts"], case["expr"]
     bs = dc.batches(t, cuts)
+    if expr.get("per_batch_index"):
+        bs = [b.reset_index(drop=True) for b in bs]
     ex = dc.example_frame(t, "two")
     src = Stream()
     sdf = DataFrame(src, example=ex)
